@@ -108,6 +108,29 @@ fn binary_case(rng: &mut Rng, idx: u64, out: &mut Out) {
         }
     }
     out.count("elementwise_results_compared_bit_exact", n as u64);
+    // rank-generic: the same numbers laid out as a vector must give bit-identical results
+    if rank > 1 {
+        let mut v = mk(&[n], &a);
+        let w = mk(&[n], &b);
+        if guard(|| match op {
+            "add" => v.add_inplace(&w),
+            "sub" => v.sub_inplace(&w),
+            "mul" => v.mul_inplace(&w),
+            _ => v.hadamard(&w, scalar),
+        })
+        .is_ok()
+        {
+            let flat1 = flat(&v);
+            if let Some(i) = (0..n).find(|i| !same_bits(flat1[*i], got[*i])) {
+                out.viol(
+                    &format!("{}:rank-dependence", op),
+                    format!("{} of {:e} and {:e} (scalar {:e}) gives {:e} in a rank-{} tensor but {:e} in a vector", op, a[i], b[i], scalar, got[i], rank, flat1[i]),
+                    J::obj().set("a", J::f(a[i] as f64)).set("b", J::f(b[i] as f64)).set("scalar", J::f(scalar as f64)).set("rank", J::Int(rank as i64)),
+                );
+            }
+            out.count("rank_genericity_comparisons", 1);
+        }
+    }
 }
 
 fn mismatch_case(rng: &mut Rng, idx: u64, out: &mut Out) {
@@ -415,7 +438,7 @@ impl Monitor for C15 {
         vec![("binary", 8000 * k), ("mismatch", 4000 * k), ("scalar", 3000 * k), ("mean", 3000 * k), ("nested", 1500 * k), ("linalg", 2000 * k)]
     }
     fn rule(&self) -> &'static str {
-        "binary: (op in add/sub/mul/hadamard) x (rank 1..4) x (content family: random, special values incl. +-0, denormals, +-MAX, overflowing products, bit-pattern denormals, log-scaled) on random shapes with extents 1..5: result bit-equal to the IEEE f32 operation performed by the harness (any association for the scaled Hadamard product), shape unchanged. mismatch: same ops + mean on operand pairs of different extent or rank (incl. equal element count in another rank): must panic and leave the left operand untouched. scalar: division by scalars incl. 0, tiny, huge + clamp. mean: k = 1..6 others. nested: Nested / NestedOptional add, Nested scalar division, nested length mismatch. linalg: outer product (bit-exact), matrix-vector product (f64 with dot-product bound), transpose, hadamard3d. Distinct = distinct (op, rank, shape, family) descriptors."
+        "binary: (op in add/sub/mul/hadamard) x (rank 1..4) x (content family: random, special values incl. +-0, denormals, +-MAX, overflowing products, bit-pattern denormals, log-scaled) on random shapes with extents 1..5: result bit-equal to the IEEE f32 operation performed by the harness (any association for the scaled Hadamard product), bit-identical to the same operation on the numbers laid out as a vector (rank-generic), shape unchanged. mismatch: same ops + mean on operand pairs of different extent or rank (incl. equal element count in another rank): must panic and leave the left operand untouched. scalar: division by scalars incl. 0, tiny, huge + clamp. mean: k = 1..6 others. nested: Nested / NestedOptional add, Nested scalar division, nested length mismatch. linalg: outer product (bit-exact), matrix-vector product (f64 with dot-product bound), transpose, hadamard3d. Distinct = distinct (op, rank, shape, family) descriptors."
     }
     fn assumptions(&self) -> Vec<&'static str> {
         vec!["hadamard3d is documented as not validating lengths, so it is only driven with equal shapes", "NaN results (inf-inf, 0*inf) are matched as NaN"]
